@@ -12,6 +12,7 @@ import json
 import os
 
 from mon import refbufr as R
+from mon import handover
 from mon.gen import cases, streams
 from mon.monitors import tape
 
@@ -94,6 +95,9 @@ def check_message(ctx, dec, q, names, b, spec, edition, sec2):
         return
     cell = 'ed%d/%s' % (edition, 'sec2' if sec2 else 'nosec2')
     ctx.add('cells', cell)
+    # metadata of message objects that come from further successful operations (the Encoder's returned object for a rendering /
+    # a selection of this message; this message after renderings and queries): what a query answers is what the bytes hold
+    handover.on_message(ctx, b, spec, site=str(spec.get('origin')), p=0.3, light=True)
     count_sections = {}
     for idx, d in secs:
         for nme in d:
